@@ -25,7 +25,7 @@ def node(k, name="", quals=(), args=(), val=None):
     nonkw = [q for q in quals if q not in KEYWORDS]
     track = vstr(nonkw[0]) if nonkw else NONE
     name_q = nonkw[0] if nonkw else ""
-    return {"k": k, "name": name, "name_q": name_q, "quals": quals, "args": list(args), "val": val or NONE, "track": track}
+    return {"k": k, "name": name, "name_q": name_q, "quals": quals, "args": list(args), "val": val or NONE, "track": track, "tmpl": []}
 
 
 def hdr(ref, quals=()):
@@ -122,6 +122,9 @@ def scan(k, a=0, b=0, items=()):
 
 def render_csvpath(prog, filename, comment=None, sep=" "):
     body = sep.join(render(c) for c in prog["comps"])
+    fields = " ".join(f"{m['_k']}: {m['_v']}" for m in prog.get("meta", []))
+    if fields:
+        comment = f"{comment} {fields}" if comment else fields
     head = f"~ {comment} ~ " if comment else ""
     return f'{head}${filename}[{render_scan(prog["scan"])}][{sep}{body}{sep}]'
 
@@ -203,3 +206,43 @@ class FileSpec:
 
 def enc_file(records):
     return [[txt(c) for c in r] for r in records]
+
+
+# ---- print templates (spec/Print.tla) ----------------------------------------------------------------
+
+SEPARATORS = " ,;:!-+()[]{}<>/|?%&@#^'"     # characters that end a reference name (SIMPLE_NAME excludes them)
+
+
+def t_text(s):
+    return {"k": "text", "s": txt(s), "typ": "", "nameS": "", "nameT": [], "subS": "", "subT": []}
+
+
+def t_ref(typ, name, sub=""):
+    return {"k": "ref", "s": [], "typ": typ, "nameS": name, "nameT": txt(name), "subS": sub, "subT": txt(sub)}
+
+
+def render_template(items):
+    out = []
+    for i, it in enumerate(items):
+        if it["k"] == "text":
+            s = "".join(chr(c) for c in it["s"])
+            if i > 0 and items[i - 1]["k"] == "ref" and s.startswith("."):
+                s = "." + s          # a literal dot directly after a reference is written '..'
+            out.append(s)
+        else:
+            r = f"$.{it['typ']}.{it['nameS']}"
+            if it["subS"]:
+                r += f".{it['subS']}"
+            out.append(r)
+    return "".join(out)
+
+
+def print_node(items, quals=(), uid="p0"):
+    n = fn("print", term(render_template(items)), quals=quals)
+    n["tmpl"] = list(items)
+    n["name_q"] = uid
+    return n
+
+
+def meta_field(k, v):
+    return {"k": txt(k), "v": txt(v), "_k": k, "_v": v}
